@@ -360,48 +360,66 @@ ALL = [f"C{n:02d}" for n in range(1, 21)]
 
 # what later rounds added to the workloads (appended to the level text)
 ADDENDA = {
+    "C14": "Zone offsets below one hour on both sides of zero, and of 10, 20, 23 hours.",
+    "C12": "After a refusal the same encoder object is asked again; names with letters that upper() turns into ASCII.",
+    "C09": "Multi-byte characters of the label itself at read-block boundaries (64 ... 8192) through every byte-wise entry point; streams the caller has already read a header line from; '#' comments glued to END; characters str.splitlines() takes for line boundaries.",
+    "C02": "Same generator as C01 (see there).",
+    "C01": "Value generator: Latin-1 parameter names, strings around comment delimiters, quote + line break, zone offsets below one hour and of 10/20/23 hours, units with Python-only white space at their ends.",
     "C03": "A quarter of the loads are preceded by a load of the same text "
            "through a differently configured parser (Decimal/Fraction reals, "
-           "other quantity class, caller's containers, another dialect).",
-    "C04": "Which dialect a worker uses first differs from shard to shard.",
+           "other quantity class, caller's containers, another dialect). "
+           "Text generator: exponents beyond the float range, zone offsets below one hour, words whose digits are not ASCII digits, words made of characters only Python takes for white space, keyword look-alikes as values and names; every fourth worker keeps one parser object per reader and feeds it truncated texts.",
+    "C04": "Which dialect a worker uses first differs from shard to shard. "
+           "Also documents with missing values under the two permissive readers.",
     "C05": "For the ISIS reader also blocks begun with another dialect's "
-           "spelling of the keyword (the only anomaly is a dialect rule).",
+           "spelling of the keyword (the only anomaly is a dialect rule). "
+           "What stands before a stray '=' is a classification feature; lone surrogates for the default reader.",
     "C06": "Also: four configurations with real_cls=Decimal on the "
            "number-heavy sources, numbers beyond what int/float/Decimal take, "
            "labels with thousands of different words, and half of the workers "
-           "keep one parser object per configuration for all their loads.",
+           "keep one parser object per configuration for all their loads. "
+           "Sources keyword look-alikes and lone surrogates.",
     "C07": "A third source of t0 are texts written by the four encoders "
            "(random options) from generated modules (cross-dialect chains).",
     "C08": "The default loader is called five ways: fresh OmniParser, "
            "pvl.loads(text), one long-lived parser per worker, and with the "
            "caller's own container classes (derived from the defaults / built "
-           "on the multi-dict).",
+           "on the multi-dict). "
+           "30 % of the judged loads are preceded by a failed load with missing values through the same way of calling the loader.",
     "C10": "Also negative key_index instances, and histories over up to three "
            "live containers built from one another (constructor, copy(), "
            "extend / insert with a container as the source), each compared "
-           "with its own model after every step.",
+           "with its own model after every step. "
+           "Also refused multi-pair inserts, one-shot iterators as insert argument, and the equality law with equal-but-different values.",
     "C11": "After each mutation round every accessor of both sides (lookup, "
            "getall, key_index, view indexing) is compared with a model of that "
            "side's own list.",
     "C13": "Also modules in the multidict-based containers of pvl.new through "
            "pvl.new.dumps, and values of the caller's own classes with "
-           "add_quantity_cls called on other encoder objects between dumps.",
+           "add_quantity_cls called on other encoder objects between dumps. "
+           "The same encoder object also writes case-swapped twins of the module between the dumps.",
     "C15": "Five loader routes: the dialect's parser, loads/load with "
-           "grammar=, loads/load with the dialect's decoder alone.",
+           "grammar=, loads/load with the dialect's decoder alone. "
+           "Labels handed over as bytes with data behind END and a disallowed multi-byte character at a read-block boundary; the character behind a dash continuation (default grammar, three routes).",
     "C16": "Also two user-subclass parser configurations and a family of "
-           "modules around refusals raised part-way through a nested value.",
+           "modules around refusals raised part-way through a nested value. "
+           "One parser object per configuration fed 700 texts, six of seven failing inside a nested value (soak); every module an instance handed back is looked at again after every later call; wrap-hazard modules.",
     "C17": "Also six encoders built with a grammar and a decoder of different "
            "dialects (writer law only), and a sample of the strings "
-           "re-observed in a pristine process.",
+           "re-observed in a pristine process. "
+           "Parser-level name checks (a number / date / time where only a name can stand must not load, also between quotes in front of a second '='); the decoder-only Token form.",
     "C18": "Substitutes are handed over through every loader entry point "
            "(str, bytes, streams, path, file: URL; with and without data "
            "behind END); a third of the cases build the plain and the "
-           "customised parser around one grammar object, in either order.",
+           "customised parser around one grammar object, in either order. "
+           "A quantity class that refuses some units: the load may fail, it may not return.",
     "C19": "Also the same optional loader arguments on both sides (15 "
            "grammar=/decoder= configurations, fresh objects per side, "
-           "interleaved in one process).",
+           "interleaved in one process). "
+           "Also bytes that are not all decodable (data behind END, a stray byte inside) on both sides.",
     "C20": "Also 19 small labels around what one or another encoder refuses, "
-           "in a shuffled order (the tools keep one encoder per format).",
+           "in a shuffled order (the tools keep one encoder per format). "
+           "27 hazard labels in all (units only some encoders take, ParseError texts), each also with -v, -vv, -v -v -v.",
 }
 HISTORY_NOTE = (" Every second worker process first lives through a history "
                 "of ordinary calls in other dialects and configurations "
